@@ -690,7 +690,10 @@ def gen_case(rng, profile="model", params=None, opts=None):
                "assign": 6, "arith": 3, "assume": 3, "havoc": 2, "join": 5, "widen": 2, "meet": 1, "narrow": 1,
                "copy": 4, "joinip": 1, "init": 1}
     if full:
-        weights.update({"rcast": 3 if U else 0, "r2i": 3, "i2r": 3, "nothastag": 2, "bassign": 2, "bassign_ref": 3,
+        # b := does_not_have_tag(..) is a no-op (b is not even forgotten) when the tag analysis is
+        # switched off: whether that is intended for intrinsics is unclear, so it is only
+        # generated with the analysis on
+        weights.update({"rcast": 3 if U else 0, "r2i": 3, "i2r": 3, "nothastag": 2 if params[2] == "1" else 0, "bassign": 2, "bassign_ref": 3,
                         "bassume": 2, "assume_nref": 3, "nonnull": 2, "forget": 2, "project": 1, "select": 1,
                         "widenthr": 1, "q_entails": 2})
     if not full and params[3] == "1":
@@ -759,6 +762,8 @@ def gen_case(rng, profile="model", params=None, opts=None):
             if rr in g_.written:
                 g_.written[l] = set(g_.written[rr])
         elif pick == "rcast":
+            if not U or not (R + Q):
+                continue
             u = rng.choice(U); t = rng.choice(R + Q)
             if rng.random() < 0.5:
                 ops.append("rcast %d %s %s" % (r, u, t))
@@ -876,6 +881,21 @@ CORPUS = [
     "rg 11101 2 2 1 3 1 0 0 ; init 0 R0 ; mk 0 p0 R0 1 c:4 ; st 0 p0 R0 c:5 ; ld 0 i0 p0 R0 ; mk 0 p1 R0 2 c:4 ; st 0 p1 R0 c:9 ; ld 0 i1 p0 R0 ; ld 0 i0 p1 R0",
     "rg 00000 2 2 1 3 1 0 0 ; init 0 R0 ; mk 0 p0 R0 1 c:4 ; copy 1 0 ; st 0 p0 R0 c:5 ; st 1 p0 R0 c:6 ; join 0 0 1 ; ld 0 i0 p0 R0",
     "rg 11111 2 2 1 3 1 0 0 ; init 0 R0 ; mk 0 p0 R0 1 c:4 ; st 0 p0 R0 c:0 ; copy 1 0 ; ld 1 i0 p0 R0 ; arith 1 add i0 i0 k 1 ; st 1 p0 R0 v:i0 ; widen 0 0 1 ; ld 0 i1 p0 R0",
+]
+
+
+# minimal histories of past findings outside the modelled fragment (search streams only)
+CORPUS_FULL = [
+    # a copy of an abstract value must not call back into the value it was copied from
+    "rg 00010 3 3 2 5 1 2 1 ; assume_ref 1 u le p4",
+    "rg 00000 3 2 1 5 1 1 1 ; ld 2 i1 p3 U0 ; r2i 2 U0 p2 i1 ; mk 2 p2 U0 3 c:16 ; assign 1 i0 E 2 1 i0 2 i1 3",
+    # p == q + k says nothing about size(p) - size(q)
+    "rg 11111 1 2 1 3 1 0 0 ; init 0 R0 ; mk 0 p0 R0 1 c:16 ; gep 0 p1 R0 p0 R0 E 0 4 ; assume_ref 0 b eq p1 p0 4 ; assign 0 i0 E 0 3",
+    # region_cast / region_copy from an untracked region overwrite the destination
+    "rg 11101 1 2 1 3 1 0 1 ; init 0 R0 ; init 0 U0 ; mk 0 p0 R0 1 c:4 ; st 0 p0 R0 c:5 ; mk 0 p1 U0 2 c:4 ; st 0 p1 U0 c:7 ; rcast 0 U0 R0 ; ld 0 i0 p1 R0",
+    "rg 11100 1 2 1 3 0 0 2 ; init 0 U0 ; init 0 U1 ; mk 0 p0 U1 1 c:4 ; st 0 p0 U1 c:5 ; st 0 p0 U1 c:5 ; rcopy 0 U1 U0 ; mk 0 p1 U1 2 c:4 ; st 0 p1 U1 c:9 ; ld 0 i0 p1 U1",
+    # the stale address of the left-hand side of ref_make seen through ref_to_int
+    "rg 10001 3 2 1 4 1 1 1 ; assume_nref 0 u gt p2 ; mk 0 p2 R0 3 c:4 ; r2i 0 R0 p2 i1",
 ]
 
 
